@@ -733,6 +733,7 @@ class Printer:
         rd = f.get('referencedDecl', {})
         nm = rd.get('name') or f.get('name')
         args = [a for a in I[1:] if a.get('kind') != 'CXXDefaultArgExpr']
+        dflt = [a for a in I[1:] if a.get('kind') == 'CXXDefaultArgExpr']
         if nm == 'move' or nm == 'forward':
             self.fire('call:std-move')
             return self.e(args[0])
@@ -790,6 +791,14 @@ class Printer:
         self.called[fn] += 1
         self.fire('call:function')
         al = [self.arg(a) for a in args]
+        for a in dflt:
+            # defaulted trailing arguments: only the null-pointer default is in the table
+            qd = Types.strip(a.get('type', {}).get('qualType', ''))
+            if qd.endswith('*'):
+                self.fire('call:default-argument-nullptr')
+                al.append('NULL')
+            else:
+                self.brk('defaulted argument of type %s' % qd, n)
         if getattr(self, '_ret_target', None) and self.is_vec_expr(n):
             al.append(self._ret_target)
             self._ret_target = None
